@@ -40,6 +40,7 @@ Inductive nop :=
 | OParse (cs : option bool) (s : string) (exp : list (string * string))
 | OName (cs : option bool) (s : string) (exp : ures string)
 | OSymbol (cs : option bool) (s : string) (exp : ures string)
+| ODefSym (cs : option bool) (s : string) (exp : ures string)   (* get_name s, then the symbol stored with that name *)
 | OAll (s : string) (ep : list (string * string)) (en es : ures string)
     (* parse_unit_name, get_name, get_symbol with the registry's case sensitivity, all on the same state *)
 | OUnits (text : string) (toks : list tok) (ad cs : option bool) (exp : ures uc)
@@ -79,6 +80,8 @@ Definition nstep (c : cfg) (nr : nreg) (o : nop) : nreg * bool :=
   | OSymbol cs s exp =>
       let cs := default (c_case c) cs in
       (nr, match pick_symbol nr c cs s exp with Some _ => true | None => false end)
+  | ODefSym cs s exp =>
+      let '(nr', x) := n_name_then_symbol nr c (default (c_case c) cs) s in (nr', ures_eqb String.eqb x exp)
   | OAll s ep en es =>
       if c_case c then
         let l := n_cand nr (n_hid nr c) true s in
